@@ -95,9 +95,10 @@ Theorem C14_refuse_foreign : forall t r c cl,
 Proof. exact merge_foreign_refused. Qed.
 Print Assumptions C14_refuse_foreign.
 
-(** Whatever merge, split or text assignment raises, the state is unchanged. *)
+(** Whatever ANY operation raises (merge, split, text assignment, row height, column
+    width), the state is unchanged: in particular a rejected resize changes nothing. *)
 Theorem C14_refuse_unchanged : forall t o e,
-  is_resize o = false -> snd (step t o) = Err e -> fst (step t o) = t.
+  snd (step t o) = Err e -> fst (step t o) = t.
 Proof. exact step_err_unchanged. Qed.
 Print Assumptions C14_refuse_unchanged.
 
@@ -162,21 +163,26 @@ Theorem C14_frame_size_col : forall t j w t',
 Proof. exact set_col_w_ok. Qed.
 Print Assumptions C14_frame_size_col.
 
-(** frame = sums is kept by every operation as long as no resize is rejected. *)
-Theorem C14_frame_size_history : forall t o,
-  frame_ok t -> (is_resize o = true -> snd (step t o) = Ok tt) -> frame_ok (fst (step t o)).
+(** frame = sums is kept by every operation, accepted or rejected ... *)
+Theorem C14_frame_size_history : forall t o, frame_ok t -> frame_ok (fst (step t o)).
 Proof. exact step_frame_ok. Qed.
 Print Assumptions C14_frame_size_history.
 
-(** The unconditional reading (frame = sum after ANY height assignment) is refuted by
-    the faithful model: when the new total is not a valid frame extent the setter raises
-    ValueError after the row height has already been written. *)
-Theorem C14_frame_size_refuted :
-  exists t i h t',
-    new_tbl 1 1 100 100 = Ok t /\ frame_ok t /\
-    step t (SetRowH i h) = (t', Err ValueErr) /\ cy t' <> sumZ (heights t').
-Proof. exact frame_size_refuted. Qed.
-Print Assumptions C14_frame_size_refuted.
+(** ... hence along every history from a new table the frame width is the sum of the
+    column widths and the frame height the sum of the row heights. *)
+Theorem C14_frame_size_all : forall rows cols w h t ops,
+  new_tbl rows cols w h = Ok t ->
+  cx (run_ops t ops) = sumZ (widths (run_ops t ops)) /\
+  cy (run_ops t ops) = sumZ (heights (run_ops t ops)).
+Proof. exact new_run_ops_frame_ok. Qed.
+Print Assumptions C14_frame_size_all.
+
+(** Regression for the repaired defect: the assignment that used to leave the row height
+    written and the frame stale (1x1 table 100x100, rows[0].height = -5) is rejected with
+    ValueError and the state is exactly the old state. *)
+Example C14_frame_size_regression :
+  exists t, new_tbl 1 1 100 100 = Ok t /\ step t (SetRowH 0 (-5)) = (t, Err ValueErr).
+Proof. exact resize_rejected_regression. Qed.
 
 (* ------------------------------------------------------------------ non-vacuity *)
 (** One concrete history exercising the hypotheses of the theorems above: text in three
